@@ -22,7 +22,8 @@ import warnings
 VERIF = os.path.dirname(os.path.dirname(os.path.abspath(__file__)))
 REPO = os.environ.get("HVSRPY_VERIF_REPO", "/repo")
 SPEC = os.path.join(VERIF, "spec")
-WORK = os.path.join(VERIF, "work")
+# scratch directory of this run; concurrent runs of the same check (selftest, mutation campaign, seed sweeps) get their own
+WORK = os.environ.get("HVSRPY_VERIF_WORK") or os.path.join(VERIF, "work")
 # evidence / replays of a run against a scratch copy of the repository (selftest, seeded changes) do not
 # overwrite those of the tree under verification
 _SCRATCH = os.path.realpath(REPO) != "/repo"
